@@ -21,7 +21,12 @@
 (* implementation may cache what it computed then; the replay visits every     *)
 (* edit from seen and from unseen states); `memo` = the bonds as they were     *)
 (* then (bookkeeping; only deviation StaleAdjacency reads it: an atom->bonds   *)
-(* table revalidated by the NUMBER of bonds only).  AddH is parameterised by what was  *)
+(* table revalidated by the NUMBER of bonds only).  Share = some of the atom   *)
+(* OBJECTS are handed to another container that does not copy them             *)
+(* (Promolecule / Connectivity / Structure(atoms)): nothing the property talks *)
+(* about changes, `shared` only records that it happened (back-references of   *)
+(* the atoms may point elsewhere now), so that every later action is visited   *)
+(* from shared and from unshared states.  AddH is parameterised by what was  *)
 (* MEASURED on the hydrogens that appeared (`hs`): bonded centre, distance to  *)
 (* it (uA), finiteness, 1000*cos of the angle between centre->H and            *)
 (* centre->centroid(existing neighbours), type of the new bond, atom record.   *)
@@ -35,9 +40,9 @@ CONSTANTS Envs,         \* local environments offered to Build (model checking /
           CosAway,      \* 1e-3: "pointing away" = 1000*cos <= -CosAway ; "towards" = 1000*cos >= CosAway
           OffMin,       \* mA : neighbours' centroid (plane) closer to the atom than this = degenerate geometry
           AllowEdit     \* BOOLEAN: Query / Rewire part of Next (model checking of histories on a small table)
-VARIABLES atoms, hints, off, bonds, phase, seen, memo, last
-vars == <<atoms, hints, off, bonds, phase, seen, memo, last>>
-sv   == <<atoms, hints, off, bonds, phase, seen, memo>>
+VARIABLES atoms, hints, off, bonds, phase, seen, memo, shared, last
+vars == <<atoms, hints, off, bonds, phase, seen, memo, shared, last>>
+sv   == <<atoms, hints, off, bonds, phase, seen, memo, shared>>
 
 Abs(x)    == IF x < 0 THEN -x ELSE x
 Max(a, b) == IF a > b THEN a ELSE b
@@ -110,13 +115,14 @@ Admitted(i, h) ==
 BondAdmitted(bt) == IF "HBondOrderZero" \in Deviations THEN bt = "Dummy" ELSE Order2(bt) = 2
 
 Init == /\ atoms = <<>> /\ hints = <<>> /\ off = <<>> /\ bonds = <<>> /\ phase = "empty" /\ seen = FALSE
-        /\ memo = <<>> /\ last = [act |-> "init"]
+        /\ memo = <<>> /\ shared = FALSE /\ last = [act |-> "init"]
 
 Load(as, hs, of, bs) ==
   /\ phase = "empty"
   /\ Len(hs) = Len(as) /\ Len(of) = Len(as)
   /\ \A k \in DOMAIN bs : bs[k].a \in DOMAIN as /\ bs[k].b \in DOMAIN as
   /\ atoms' = as /\ hints' = hs /\ off' = of /\ bonds' = bs /\ phase' = "built" /\ seen' = FALSE /\ memo' = <<>>
+  /\ shared' = FALSE
 
 (* the molecule was changed through other public calls (del_atom, new_atom, connect, remove_substituent, a bond's *)
 (* a1/a2 re-pointed, ...): what those do is not C16's business, HAdd takes the graph as it now is                 *)
@@ -125,12 +131,19 @@ Edited(as, hs, of, bs) ==
   /\ Len(hs) = Len(as) /\ Len(of) = Len(as)
   /\ \A k \in DOMAIN bs : bs[k].a \in DOMAIN as /\ bs[k].b \in DOMAIN as
   /\ atoms' = as /\ hints' = hs /\ off' = of /\ bonds' = bs /\ phase' = "built" /\ seen' = FALSE /\ memo' = <<>>
+  /\ UNCHANGED shared
+
+(* the atom objects in S are also listed in another, non-copying container (kept alive or dropped at once) *)
+Share(S, kind, keep) ==
+  /\ phase # "empty" /\ S # {} /\ S \subseteq DOMAIN atoms
+  /\ shared' = TRUE /\ UNCHANGED <<atoms, hints, off, bonds, phase, seen, memo>>
+  /\ last' = [act |-> "share", out |-> "ok", sub |-> S, kind |-> kind, keep |-> keep]
 
 (* neighbour / valence accessors: answers from the current bonds, nothing changes *)
 NbrSet(bs, i) == {Other(bs[k], i) : k \in BondsAt(bs, i)}
 Query(i) ==
   /\ phase # "empty" /\ i \in DOMAIN atoms
-  /\ seen' = TRUE /\ memo' = (IF seen THEN memo ELSE bonds) /\ UNCHANGED <<atoms, hints, off, bonds, phase>>
+  /\ seen' = TRUE /\ memo' = (IF seen THEN memo ELSE bonds) /\ UNCHANGED <<atoms, hints, off, bonds, phase, shared>>
   /\ last' = [act |-> "query", out |-> "ok", i |-> i, nb |-> NbrSet(bonds, i), n |-> NNbr(bonds, i), bv2 |-> SumOrd2(bonds, i, 1)]
 
 (* bond k taken off atom `from` and put on atom j instead: del_bond + connect.  The number of bonds stays. *)
@@ -140,7 +153,7 @@ Rewire(k, j) ==
   /\ j # bonds[k].a /\ j # bonds[k].b
   /\ ~\E m \in DOMAIN bonds : Touches(bonds[m], j) /\ Touches(bonds[m], bonds[k].b)      \* no double bond record
   /\ bonds' = RemoveAt(bonds, k) \o <<[a |-> j, b |-> bonds[k].b, bt |-> bonds[k].bt]>>
-  /\ phase' = "edited" /\ UNCHANGED <<atoms, hints, off, seen, memo>>
+  /\ phase' = "edited" /\ UNCHANGED <<atoms, hints, off, seen, memo, shared>>
   /\ last' = [act |-> "rewire", out |-> "ok", k |-> k, j |-> j]
 
 (* one local environment of the case table: a centre with 0..3 neighbours *)
@@ -173,11 +186,15 @@ AddH(hs) ==
         /\ atoms' = (IF "ShiftsCoords" \in Deviations /\ hs # <<>>
                        THEN [j \in DOMAIN atoms |-> [atoms[j] EXCEPT !.pos = 0]] ELSE atoms)
                     \o [k \in DOMAIN hs |-> hs[k].atom]
+                    \o (IF "ReadoptsShared" \in Deviations /\ shared /\ hs # <<>>      \* a shared atom taken for foreign
+                          THEN <<[atoms[cs[1]] EXCEPT !.pos = 0]>> ELSE <<>>)
         /\ bonds' = bonds \o nb \o (IF "HBondedTwice" \in Deviations /\ hs # <<>> /\ n0 > 1
                                       THEN <<[a |-> (cs[1] % n0) + 1, b |-> n0 + 1, bt |-> "Single"]>> ELSE <<>>)
         /\ hints' = hints \o [k \in DOMAIN hs |-> -1]
+                    \o (IF "ReadoptsShared" \in Deviations /\ shared /\ hs # <<>> THEN <<-1>> ELSE <<>>)
         /\ off' = off \o [k \in DOMAIN hs |-> 0]
-        /\ seen' = TRUE /\ memo' = bonds'                  \* the call itself looks at neighbours
+                    \o (IF "ReadoptsShared" \in Deviations /\ shared /\ hs # <<>> THEN <<0>> ELSE <<>>)
+        /\ seen' = TRUE /\ memo' = bonds' /\ UNCHANGED shared                  \* the call itself looks at neighbours
         /\ last' = [act |-> "addh", out |-> "ok", n |-> Len(hs), hs |-> hs, cls |-> [k \in DOMAIN hs |-> Class(cs[k], hs[k])]]
   /\ phase' = "called"
 
@@ -192,12 +209,18 @@ ModelPlacement ==
       d   |-> BondLen(atoms[cs[k]].el) + (IF "WrongLength" \in Deviations THEN 10 * TolD ELSE 0),
       cos |-> IF NNbr(bonds, cs[k]) = 0 THEN 0 ELSE IF "TowardNeighbours" \in Deviations THEN 1000 ELSE -1000]]
 
-MQuery(i)     == AllowEdit /\ phase \in {"built", "edited"} /\ Query(i)       \* histories before the calls (small table)
+MQuery(i)     == AllowEdit /\ phase \in {"built", "edited"} /\ ~shared /\ Query(i)       \* histories before the calls (small table)
 MRewire(k, j) == AllowEdit /\ Rewire(k, j)
+CentreSet == {i \in DOMAIN atoms : IsCentre(atoms, i)}
+MShare(m)     == /\ AllowEdit /\ phase = "built" /\ ~seen /\ ~shared          \* other interleavings: random histories
+                 /\ Share(IF m.sub = "all" THEN DOMAIN atoms ELSE CentreSet, m.kind, m.keep)
+ShareModes == {[sub |-> "all", kind |-> "Promolecule", keep |-> FALSE], [sub |-> "centres", kind |-> "Promolecule", keep |-> TRUE],
+               [sub |-> "all", kind |-> "Connectivity", keep |-> TRUE], [sub |-> "centres", kind |-> "Structure", keep |-> FALSE]}
 Next == \/ \E e \in Envs : Build(e)
         \/ AddH(ModelPlacement)
         \/ \E i \in DOMAIN atoms : MQuery(i)
         \/ \E k \in DOMAIN bonds, j \in DOMAIN atoms : MRewire(k, j)
+        \/ \E m \in ShareModes : MShare(m)
 Spec == Init /\ [][Next]_vars
 
 (* ----- the clauses of C16 --------------------------------------------------------------------- *)
@@ -235,7 +258,7 @@ QueryRight ==
   [][last'.act = "query" =>
         /\ last'.nb = {j \in DOMAIN atoms : \E k \in DOMAIN bonds : Touches(bonds[k], last'.i) /\ Other(bonds[k], last'.i) = j}
         /\ last'.n = Cardinality({k \in DOMAIN bonds : Touches(bonds[k], last'.i)})]_vars
-TypeOK == /\ phase \in {"empty", "built", "edited", "called"} /\ seen \in BOOLEAN
+TypeOK == /\ phase \in {"empty", "built", "edited", "called"} /\ seen \in BOOLEAN /\ shared \in BOOLEAN
           /\ Len(hints) = Len(atoms) /\ Len(off) = Len(atoms)
           /\ \A k \in DOMAIN bonds : bonds[k].a \in DOMAIN atoms /\ bonds[k].b \in DOMAIN atoms
 =============================================================================
